@@ -42,10 +42,16 @@ theorem getD_lt_of_bytes {l : List Nat} (h : Bytes l) (i : Nat) : l.getD i 0 < 2
   | none => simp
   | some v => simpa using h v (List.mem_of_getElem? hi)
 
+theorem descrWfB_sound {d : List Nat} (h : descrWfB d = true) : DescrWf d := by
+  simp only [descrWfB, Bool.and_eq_true, decide_eq_true_eq] at h
+  refine ⟨h.1, fun c hc => ?_⟩
+  have := List.all_eq_true.mp h.2 c hc
+  simpa using this
+
 theorem wfB_sound {s : BmcState} (h : wfB s = true) : s.Wf := by
   simp only [wfB, Bool.and_eq_true, decide_eq_true_eq] at h
-  obtain ⟨⟨⟨⟨⟨⟨⟨⟨⟨⟨⟨⟨⟨⟨⟨⟨⟨⟨⟨⟨⟨⟨⟨⟨⟨⟨⟨⟨⟨⟨⟨⟨⟨⟨⟨⟨d1, d2⟩, d3⟩, d4⟩, d5⟩, d6⟩, d7⟩, d8⟩, d9⟩, g⟩, w1⟩, w2⟩, w3⟩, w4⟩, w5⟩, c1⟩, c2⟩, bf⟩,
-    lan⟩, lr⟩, un⟩, ue⟩, mu⟩, fn⟩, se⟩, ea⟩, el⟩, le⟩, po⟩, pw⟩, sc⟩, pc⟩, pg⟩, hc⟩, hs⟩, hr⟩, he⟩ := h
+  obtain ⟨⟨⟨⟨⟨⟨⟨⟨⟨⟨⟨⟨⟨⟨⟨⟨⟨⟨⟨⟨⟨⟨⟨⟨⟨⟨⟨⟨⟨⟨⟨⟨⟨⟨⟨⟨⟨d1, d2⟩, d3⟩, d4⟩, d5⟩, d6⟩, d7⟩, d8⟩, d9⟩, g⟩, w1⟩, w2⟩, w3⟩, w4⟩, w5⟩, c1⟩, c2⟩, bf⟩,
+    lan⟩, lr⟩, un⟩, ue⟩, mu⟩, fn⟩, se⟩, ea⟩, el⟩, le⟩, po⟩, pw⟩, sc⟩, pc⟩, pg⟩, hc⟩, hs⟩, hr⟩, he⟩, hd⟩ := h
   refine
     { device := ⟨d1, d2, d3, d4, d5, d6, d7, d8, ?_⟩, guid := g, watchdog := ⟨w1, w2, w3, w4, w5⟩, chassis := ⟨c1, c2⟩,
       bootFlags := allB_sound bf ?_, lan := allB_sound lan fun _ _ => lanWfB_sound,
@@ -56,7 +62,8 @@ theorem wfB_sound {s : BmcState} (h : wfB s = true) : s.Wf := by
       leds := allB_sound le ?_, ports := allB_sound po fun _ _ => portWfB_sound,
       power := allB_sound pw (by intro _ _ hh; simpa using hh), sigClass := allB_sound sc (by intro _ _ hh; simpa using hh),
       powerChannels := allB_sound pc (by intro _ _ hh; simpa using hh), pmGlobal := pg, hpmComponents := hc,
-      hpmSelftest2 := hs, hpmRollback := hr, hpmRollbackEstimate := ?_ }
+      hpmSelftest2 := hs, hpmRollback := hr, hpmRollbackEstimate := ?_,
+      hpmDescr := allB_sound hd fun _ _ => descrWfB_sound }
   · intro a ha; rw [ha] at d9; simpa using d9
   · intro k v hh hk
     simp only [Bool.or_eq_true, bne_iff_ne, decide_eq_true_eq] at hh
@@ -65,8 +72,9 @@ theorem wfB_sound {s : BmcState} (h : wfB s = true) : s.Wf := by
     · exact h2
   · intro _ x hh
     simp only [Bool.and_eq_true] at hh
-    refine ⟨fun a ha => ?_, getD_lt_of_bytes (bytesB_sound hh.2)⟩
-    have := hh.1; rw [ha] at this; simpa [optAll] using this
+    refine ⟨fun a ha => ?_, fun b hb => ?_, getD_lt_of_bytes (bytesB_sound hh.2)⟩
+    · have := hh.1.1; rw [ha] at this; simpa [optAll] using this
+    · have := hh.1.2; rw [hb] at this; simpa [optAll] using this
   · intro _ x hh
     simp only [Bool.and_eq_true] at hh
     exact ⟨ledFnWfB_sound hh.1, ledFnWfB_sound hh.2⟩
@@ -111,6 +119,7 @@ theorem inRangeB_sound {c : Call} (h : inRangeB c = true) : c.InRange := by
   case sendPlatformEvent e => obtain ⟨⟨⟨⟨⟨a, b⟩, c⟩, d⟩, e⟩, f⟩ := h; exact ⟨a, b, c, d, e, f⟩
   case setLedState => exact ⟨h.1.1, h.1.2, ledCmdInRangeB_sound h.2⟩
   case setPortState => exact ⟨h.1.1.1.1.1, h.1.1.1.1.2, h.1.1.1.2, portWfB_sound h.1.1.2, h.1.2, h.2⟩
+  case setPortStateType8 => exact ⟨h.1.1.1.1.1, h.1.1.1.1.2, h.1.1.1.2, portWfB_sound h.1.1.2, h.1.2, h.2⟩
   case sendChannelPower => exact ⟨h.1.1.1, h.1.1.2, h.1.2, h.2⟩
   case setSignalingClass => exact ⟨h.1.1, h.1.2, h.2⟩
 
